@@ -166,6 +166,18 @@ class AtomRun:
             elif k == "static":
                 self.targets["s"] = (getattr(cls, L.fn_name(a)), None)
                 self.inst = cls()
+            elif k == "oper":
+                import operator
+                self.self_m = cls()
+                self.self_c = self.self_m.vt_cself()
+                sid = self.self_m.vt_id()
+                if a["op"] == "()":
+                    self.targets["m"] = (self.self_m, sid)
+                    self.targets["c"] = (self.self_c, sid)
+                else:
+                    f = getattr(operator, L.OPER_PY[a["op"]])
+                    self.targets["m"] = (lambda *x, _s=self.self_m: f(_s, *x), sid)
+                    self.targets["c"] = (lambda *x, _s=self.self_c: f(_s, *x), sid)
             else:
                 self.self_m = cls()
                 self.self_c = self.self_m.vt_cself()
@@ -176,6 +188,8 @@ class AtomRun:
     def forms(self, tup, verdict):
         """call forms for a tuple: positional always; keyword forms for judged-native tuples"""
         yield "pos"
+        if self.a["kind"] == "oper" and self.a["op"] != "()":
+            return
         if verdict[0] == "native" and len(tup) >= 1:
             yield "kw"
             if len(tup) >= 2:
@@ -267,7 +281,9 @@ class AtomRun:
         if verdict[0] == "error":
             # constructor bodies of temporaries (born and gone within the call, ledger
             # balanced) are not "objects changed"
+            obs["temp_ctor_calls"] = [c for c in calls if TEMP_CTOR.match(c)]
             calls = [c for c in calls if not TEMP_CTOR.match(c)]
+            obs["calls"] = calls
             if exc in verdict[1] and not calls:
                 return ("%s:%s" % (verdict[2], exc), None)
             if exc is None:
@@ -282,20 +298,35 @@ class AtomRun:
             return ("HARNESS", {"what": "oracle symbol missing", "sym": L.oracle_symbol(a, mode, verdict[1])})
         ocalls, ores = orc
         if ores == "ILL-FORMED":
-            if mode == "c":
-                if exc == "TypeError" and not calls:
-                    return ("const-self-rejected", None)
-                return fail("non-const method ran on a const object", "TypeError")
-            return ("unjudged:c++-ill-formed:" + (exc or "ran"), None)
+            # a corresponding overload exists, yet C++ refuses the call: it is ambiguous
+            # (e.g. VM* for both VA* and VC*).  The property speaks of calls C++ resolves.
+            return ("unjudged:c++-ambiguous:" + (exc or "ran"), None)
         if exc is not None:
             if form in ("kw", "kwrev", "mix") and exc == "TypeError" and not calls:
                 return ("unjudged:keywords-rejected", None)
             return fail("raised %s although C++ runs %s" % (exc, ocalls), {"calls": ocalls, "res": ores})
+        extra_temp = ""
         if calls != ocalls:
-            return fail("different C++ body / argument values ran", {"calls": ocalls, "res": ores})
+            # (a) the order in which the temporaries of one call are constructed is unspecified
+            # in C++ (g++ evaluates arguments right to left); (b) constructor bodies of additional
+            # temporaries (ledger balanced) are tolerated.  Everything else must be equal, in order.
+            exp_t = sorted(c for c in ocalls if TEMP_CTOR.match(c))
+            obs_t = sorted(c for c in calls if TEMP_CTOR.match(c))
+            exp_o = [c for c in ocalls if not TEMP_CTOR.match(c)]
+            obs_o = [c for c in calls if not TEMP_CTOR.match(c)]
+            rest = list(obs_t)
+            ok = exp_o == obs_o
+            for c in exp_t:
+                if c in rest:
+                    rest.remove(c)
+                else:
+                    ok = False
+            if not ok:
+                return fail("different C++ body / argument values ran", {"calls": ocalls, "res": ores})
+            extra_temp = ":+temp-ctor" if rest else ":temp-order"
         if res != ores:
             return fail("different return value", {"calls": ocalls, "res": ores})
-        return ("dispatch-ok:" + verdict[2] + (":" + form if form != "pos" else ""), None)
+        return ("dispatch-ok:" + verdict[2] + (":" + form if form != "pos" else "") + extra_temp, None)
 
     def run(self, values, only_call=None, progress=None):
         a = self.a
@@ -343,6 +374,7 @@ class HExec:
         self.env = env
         self.OW = env.mod.OW
         self.OP = env.mod.OP
+        self.OD = env.mod.OD
 
     def counts(self):
         lib = self.env.lib
@@ -354,6 +386,8 @@ class HExec:
             return self.OW()
         if k == "newP":
             return self.OP()
+        if k == "newD":
+            return self.OD()
         if k == "makenew":
             return self.OW.make_new()
         if k == "del":
@@ -385,6 +419,14 @@ class HExec:
             return v.touch()
         if k == "setn":
             return v.set_n(v.get_n() + 1)
+        if k == "asw":
+            return v.as_w()
+        if k == "takew":
+            return v.take_w(vs[op[2]])
+        if k == "takewcref":
+            return v.take_wcref(vs[op[2]])
+        if k == "takewval":
+            return v.take_wval(vs[op[2]])
         if k == "takeptr":
             return v.take_ptr(vs[op[2]])
         if k == "takecref":
@@ -428,16 +470,16 @@ class HExec:
                     return fail(step, "expected %s (constness), observed %s" % (exp["raises"], exc or "success"))
             elif exc is not None:
                 return fail(step, "unexpected exception " + exc)
-            if op[0] in ("takeptr", "takecref") and exc is None:
+            if op[0] in ("takeptr", "takecref", "takew", "takewcref") and exc is None:
                 want = aid.get(st["vars"][op[2]]["obj"])
                 if res != want:
                     return fail(step, "argument object identity: C++ saw id %r, wrapper holds %r" % (res, want))
-            if op[0] == "takeval" and exc is None:
+            if op[0] in ("takeval", "takewval") and exc is None:
                 if res < next_before:
                     return fail(step, "by-value argument was not a fresh copy (id %r)" % res)
             ev = exp["var"]
             if ev is not None:
-                cls = self.OW if ev["kind"] == "W" else self.OP
+                cls = (self.OD if ev.get("derived") else self.OW) if ev["kind"] == "W" else self.OP
                 if type(res) is not cls:
                     return fail(step, "result has type %s, expected %s" % (type(res).__name__, cls.__name__))
                 rid = res.vt_id()
@@ -636,6 +678,8 @@ def names_check(env, a):
     if cls is None or not isinstance(cls, type):
         return [L.cls_name(a)]
     names = ["vt_cself", "vtCself", "vt_id", "vtId"]
+    if a["kind"] == "oper":
+        names.append({"+": "__add__", "[]": "__getitem__", "()": "__call__"}[a["op"]])
     if a["kind"] in ("meth", "static"):
         names += [L.fn_name(a), camel(L.fn_name(a))]
     for nm in names:
